@@ -705,6 +705,29 @@ impl FragmentScanner {
     }
 }
 
+/// Verification hook: the per-batch (per-page) simplified predicates of every fragment of this
+/// scan, exactly as [`FragmentScanner::scan`] computes them before deciding which batches to skip
+/// (literal `false`), to read unfiltered (literal `true`) or to evaluate.
+#[cfg(lancedb_lance_verif)]
+impl LancePushdownScanExec {
+    pub async fn verif_simplified_predicates(&self) -> Result<Vec<Vec<Expr>>> {
+        let mut out = Vec::with_capacity(self.fragments.len());
+        for fragment in self.fragments.iter() {
+            let frag_scanner = FragmentScanner::open(
+                fragment.clone(),
+                self.dataset.clone(),
+                self.projection.clone(),
+                self.predicate_projection.clone(),
+                self.predicate.clone(),
+                self.config.clone(),
+            )
+            .await?;
+            out.push(frag_scanner.simplified_predicates()?);
+        }
+        Ok(out)
+    }
+}
+
 #[cfg(test)]
 mod test {
     use arrow_array::{
